@@ -2,6 +2,7 @@ package checks
 
 import (
 	"fmt"
+	"github.com/vedadiyan/genql"
 	"regexp"
 	"strings"
 
@@ -31,18 +32,23 @@ type C07Case struct {
 	InSubCol string `json:"in_sub_col,omitempty"`
 	Not      bool   `json:"not,omitempty"`
 	ExPred   *sq.E  `json:"ex_pred,omitempty"` // EXISTS predicate over element + outer columns
-	Collide  bool   `json:"collide,omitempty"` // the nested array is called t2 like a table of the document; missing / NULL in some rows
+	// Scale: table t is expanded to 200-700 rows by this recipe before anything is computed (composition forms)
+	Scale *Scale `json:"scale,omitempty"`
+	// Vars / Consts (form nested-options): every run of the case is built WithVars / WithConstants holding these
+	Vars    map[string]any `json:"vars,omitempty"`
+	Consts  map[string]any `json:"consts,omitempty"`
+	Collide bool           `json:"collide,omitempty"` // the nested array is called t2 like a table of the document; missing / NULL in some rows
 }
 
 func init() {
 	Register(&Prop{
 		ID:    "C07",
 		Title: "CTEs, derived tables and subqueries equal staged evaluation",
-		Rule: "rapid draws a document (table t with scalar columns and a nested array column, flat table t2) and either a composed pipeline " +
+		Rule: "(about 2% of the composition cases expand table t to 200-700 rows by a recipe.) rapid draws a document (table t with scalar columns and a nested array column, flat table t2) and either a composed pipeline " +
 			"(WITH c AS (Qi) Qo(c); Qo((Qi) x); chains c1->c2->outer; a CTE referenced twice through a self-join, through FROM plus an " +
 			"IN-subquery, through a filtering CTE plus a join, or through a filtered FROM plus an aggregating subquery; FROM `c.items` on an array-valued CTE column; a third of the outer stages of every shape, aggregates included, end in LIMIT n [OFFSET m]) that must equal the staged evaluation over materialised intermediate " +
 			"results passed in as plain input, or a subquery form (select-item subquery on the row / on `<-` the enclosing document, also correlated with the outer row through `<-.col`; IN-subquery on the row and on the root, " +
-			"[NOT] EXISTS correlated with the outer row (outer columns by bare name or as `<-.col`) over nested arrays whose elements may lack keys; IN subqueries also with ORDER BY / LIMIT / OFFSET and in the plain one-column form; CTE names that shadow a table of the document; derived tables called like a table of the document while the outer query reads that table through `<-`) that must equal the standalone execution of the subquery text on that row (EXISTS: the " +
+			"[NOT] EXISTS correlated with the outer row (outer columns by bare name or as `<-.col`) over nested arrays whose elements may lack keys; IN subqueries also with ORDER BY / LIMIT / OFFSET and in the plain one-column form; CTE names that shadow a table of the document; derived tables called like a table of the document while the outer query reads that table through `<-`; statements whose inner, outer and root sub queries read the statement's options through GETVAR / CONSTANT) that must equal the standalone execution of the subquery text on that row (EXISTS: the " +
 			"reference 'some element satisfies p'). Non-trivial: inner result non-empty and the outer stage filters or projects it.",
 		Assumptions: []string{
 			"outer and nested column names are disjoint in EXISTS; derived tables are always aliased",
@@ -54,6 +60,13 @@ func init() {
 			c := genC07(t).(*C07Case)
 			c.Env = genEnvelope(t, "env")
 			c.Env.Wrapped = false
+			// scale (composition forms): an intermediate result of hundreds of rows is still the same result
+			switch c.Form {
+			case "cte", "derived", "chain", "twice-filter-join", "twice-filter-sub", "derived-shadow", "nested-options":
+				if rows, _ := c.Doc["t"].([]any); len(rows) > 0 {
+					c.Scale = genScale(t, 14, "scale")
+				}
+			}
 			return c
 		},
 		New: func() any { return &C07Case{} },
@@ -260,7 +273,7 @@ func genOuterQueryCore(t *rapid.T, tb *Table, prefix string, label string) (stri
 func genC07(t *rapid.T) any {
 	doc, sc := genC07Doc(t)
 	c := &C07Case{Doc: doc}
-	c.Form = rapid.SampledFrom([]string{"cte", "derived", "derived", "chain", "twice-join", "twice-insub", "twice-filter-join", "twice-filter-sub", "path", "derived-shadow", "sel-sub", "sel-sub-root", "sel-sub-root", "in-sub", "in-sub-root", "exists", "exists"}).Draw(t, "form")
+	c.Form = rapid.SampledFrom([]string{"cte", "derived", "derived", "chain", "twice-join", "twice-insub", "twice-filter-join", "twice-filter-sub", "path", "derived-shadow", "nested-options", "sel-sub", "sel-sub-root", "sel-sub-root", "in-sub", "in-sub-root", "exists", "exists"}).Draw(t, "form")
 	switch c.Form {
 	case "cte":
 		qi, sch := genInnerQuery(t, sc.tb, "i1")
@@ -277,6 +290,32 @@ func genC07(t *rapid.T) any {
 		c.Composed = fmt.Sprintf(qo, "("+fmt.Sprintf(qi, "t")+") x")
 		c.Stages = []string{fmt.Sprintf(qi, "t"), fmt.Sprintf(qo, "m1 x")}
 		c.Ordered = ord
+	case "nested-options":
+		// the inner query, the outer query and a root sub query read the options the statement was built with
+		// (GETVAR / CONSTANT): the options of a statement hold in every query nested in it
+		cmin := rapid.SampledFrom([]float64{0, 1, 2, 3}).Draw(t, "cmin")
+		vmax := rapid.SampledFrom([]float64{1, 2, 3, 5, 9}).Draw(t, "vmax")
+		vmin := rapid.SampledFrom([]float64{0, 1, 2}).Draw(t, "vmin")
+		c.Vars = map[string]any{"vmax": vmax, "vmin": vmin}
+		c.Consts = map[string]any{"cmin": cmin, "tag": "c"}
+		qi := fmt.Sprintf("SELECT %s, %s, CONSTANT('tag') AS tg FROM t WHERE %s >= CONSTANT('cmin')", sc.k, sc.v, sc.k)
+		sub := fmt.Sprintf("SELECT COUNT(*) AS n FROM `<-t2` WHERE %s >= GETVAR('vmin')", sc.t2c)
+		switch rapid.IntRange(0, 2).Draw(t, "shape") {
+		case 0:
+			qo := "SELECT x." + sc.k + " AS ok, x.tg AS tg, (" + sub + ") AS sb FROM %s x WHERE x." + sc.k + " <= GETVAR('vmax')"
+			c.Composed = fmt.Sprintf(qo, "("+qi+")")
+			c.Stages = []string{qi, fmt.Sprintf(qo, "m1")}
+		case 1:
+			qo := "SELECT " + sc.k + ", tg, GETVAR('vmin') AS lo FROM %s WHERE " + sc.k + " <= GETVAR('vmax')"
+			c.Composed = "WITH c AS (" + qi + ") " + fmt.Sprintf(qo, "c")
+			c.Stages = []string{qi, fmt.Sprintf(qo, "m1")}
+		default:
+			qm := "SELECT " + sc.k + ", tg FROM %s WHERE " + sc.k + " <= GETVAR('vmax')"
+			qo := "SELECT " + sc.k + ", CONSTANT('tag') AS t2g FROM %s WHERE " + sc.k + " IN (SELECT " + sc.t2c + " FROM `<-t2` WHERE " + sc.t2c + " >= GETVAR('vmin'))"
+			c.Composed = "WITH c1 AS (" + qi + "), c2 AS (" + fmt.Sprintf(qm, "c1") + ") " + fmt.Sprintf(qo, "c2")
+			c.Stages = []string{qi, fmt.Sprintf(qm, "m1"), fmt.Sprintf(qo, "m2")}
+		}
+		c.Ordered = true
 	case "derived-shadow":
 		// the derived table is called like a table of the document (the one it reads, or another one), and the
 		// outer query also reads that table of the enclosing document through `<-`: the alias names the derived
@@ -519,7 +558,26 @@ func emptyAsNil(v any) any {
 	return v
 }
 
+// extra are the options every run of a nested-options case is built with.
+func (c *C07Case) extra() []genql.QueryOption {
+	var l []genql.QueryOption
+	if c.Vars != nil {
+		l = append(l, genql.WithVars(val.CopyMap(c.Vars)))
+	}
+	if c.Consts != nil {
+		l = append(l, genql.WithConstants(val.CopyMap(c.Consts)))
+	}
+	return l
+}
+
 func checkC07(c *C07Case) Result {
+	if c.Scale != nil {
+		cc := *c
+		cc.Doc, cc.Scale = c.Scale.ExpandDoc(c.Doc, "t"), nil
+		res := checkC07(&cc)
+		res.Labels = append(res.Labels, "large-table")
+		return res
+	}
 	res := Result{Labels: []string{"form:" + c.Form}}
 	if c.Collide {
 		res.Labels = append(res.Labels, "nested-array-named-like-a-document-table")
@@ -529,12 +587,12 @@ func checkC07(c *C07Case) Result {
 	}
 	rows, _ := c.Doc["t"].([]any)
 	switch c.Form {
-	case "cte", "derived", "derived-shadow", "chain", "twice-join", "twice-insub", "twice-filter-join", "twice-filter-sub", "path":
+	case "cte", "derived", "derived-shadow", "nested-options", "chain", "twice-join", "twice-insub", "twice-filter-join", "twice-filter-sub", "path":
 		doc := val.CopyMap(c.Doc)
 		var last Out
 		firstLen := -1
 		for i, q := range c.Stages {
-			last = Run(val.CopyMap(doc), q, Opts{})
+			last = Run(val.CopyMap(doc), q, Opts{}, c.extra()...)
 			res.Execs++
 			if !last.OK() {
 				// the staged form itself fails: composition cannot be judged (the failure belongs to another property)
@@ -554,6 +612,9 @@ func checkC07(c *C07Case) Result {
 			}
 		}
 		comp := c.Env.Exec(val.CopyMap(c.Doc), c.Composed)
+		if c.Form == "nested-options" {
+			comp = Run(val.CopyMap(c.Doc), c.Composed, Opts{}, c.extra()...)
+		}
 		res.Execs++
 		if !comp.OK() {
 			res.Violation = fmt.Sprintf("composed query fails but the staged evaluation succeeds\n  composed: %s\n  got %s\n  staged:   %s\n  -> %s", c.Composed, comp.Describe(), strings.Join(c.Stages, " ; "), val.JSON(last.Rows))
